@@ -353,7 +353,6 @@ func specEarlyMS(availS, nowS, atoS float64) int {
 //@   ensures early: typeIs(result, errTooEarly{}) <==> specPhase(availTimeS, nowS, timeShiftBufferDepthS, availabilityTimeOffsetS) == phaseEarly
 //@   ensures gone: result == errGone <==> specPhase(availTimeS, nowS, timeShiftBufferDepthS, availabilityTimeOffsetS) == phaseGone
 //@   ensures remaining: typeIs(result, errTooEarly{}) ==> result.(errTooEarly).deltaMS == specEarlyMS(availTimeS, nowS, availabilityTimeOffsetS)
-//@   allocates
 
 //@ func RepData.duration
 //@   requires len(r.Segments) >= 1
@@ -372,21 +371,18 @@ func specEarlyMS(availS, nowS, atoS float64) int {
 //@   ensures  remaining: typeIs(err, errTooEarly{}) ==> err.(errTooEarly).deltaMS == specEarlyMS(specAvailS(a, rep, cfg, int(nr)-specStartNr(cfg)), float64(nowMS)*0.001, cfg.AvailabilityTimeOffsetS)
 //@   ensures  time: err == nil ==> sm.newTime == uint64(specStart(a, rep, int(nr)-specStartNr(cfg))) && sm.newDur == uint32(specDur(rep, int(nr)-specStartNr(cfg))) && sm.newNr == nr
 //@   ensures  source: err == nil ==> sm.rep == rep && sm.origTime == rep.Segments[(int(nr)-specStartNr(cfg))%len(rep.Segments)].StartTime && sm.origNr == rep.Segments[(int(nr)-specStartNr(cfg))%len(rep.Segments)].Nr && sm.origDur == sm.newDur && int(sm.timescale) == rep.MediaTimescale
-//@   allocates
 
 //@ func RepData.findSegmentIndexFromTime
 //@   requires sortedSegs(r.Segments)
 //@   ensures  0 <= result && result <= len(r.Segments)
 //@   ensures  forall i in [0, result) :: r.Segments[i].StartTime < t
 //@   ensures  result < len(r.Segments) ==> r.Segments[result].StartTime >= t
-//@   allocates
 
 //@ func findFirstFinishedSegIdx
 //@   requires sortedSegs(segs)
 //@   ensures  -1 <= result && result < len(segs)
 //@   ensures  forall i in [0, result+1) :: segs[i].EndTime <= t
 //@   ensures  result+1 < len(segs) ==> segs[result+1].EndTime > t
-//@   allocates
 
 // findSegMetaFromTime: a $Time$ address is accepted only if, after removing whole loops
 // (w = time / loop duration), it is exactly the start of a VoD segment idx; the answer then
@@ -402,7 +398,6 @@ func specEarlyMS(availS, nowS, atoS float64) int {
 //@   ensures  early: forall idx in [0, len(rep.Segments)) :: (int(rep.Segments[idx].StartTime) == int(time) - int(time)/wrapDurOf(a, rep)*wrapDurOf(a, rep) ==> (typeIs(err, errTooEarly{}) <==> phaseOf(a, rep, cfg, idx, int(time)/wrapDurOf(a, rep), nowMS) == phaseEarly))
 //@   ensures  gone: forall idx in [0, len(rep.Segments)) :: (int(rep.Segments[idx].StartTime) == int(time) - int(time)/wrapDurOf(a, rep)*wrapDurOf(a, rep) ==> (err == errGone <==> phaseOf(a, rep, cfg, idx, int(time)/wrapDurOf(a, rep), nowMS) == phaseGone))
 //@   ensures  miss: (forall idx in [0, len(rep.Segments)) :: int(rep.Segments[idx].StartTime) != int(time) - int(time)/wrapDurOf(a, rep)*wrapDurOf(a, rep)) ==> err != nil && !typeIs(err, errTooEarly{}) && err != errGone
-//@   allocates
 
 // lemmaWrapDurIsRepDur: the loop duration used by the code is the representation's duration.
 //@ lemma lemmaWrapDurIsRepDur
@@ -470,7 +465,6 @@ func lemmaFrameCeilMono(t1, t2, refTimescale, fd, audioTimescale uint64) {
 //@   ensures  contains: err == nil ==> exists k in [0, len(a.refRep.Segments)) :: (sm.origTime == a.refRep.Segments[k].StartTime && sm.origNr == a.refRep.Segments[k].Nr && sm.newDur == uint32(a.refRep.Segments[k].EndTime-a.refRep.Segments[k].StartTime) && a.refRep.Segments[k].EndTime > (time*uint64(a.refRep.MediaTimescale)/uint64(rep.MediaTimescale))%uint64(repDur(a.refRep)) && (k == 0 || a.refRep.Segments[k-1].EndTime <= (time*uint64(a.refRep.MediaTimescale)/uint64(rep.MediaTimescale))%uint64(repDur(a.refRep))) && sm.newTime == (time*uint64(a.refRep.MediaTimescale)/uint64(rep.MediaTimescale))/uint64(repDur(a.refRep))*uint64(repDur(a.refRep)) + a.refRep.Segments[k].StartTime && sm.newNr == uint32(uint64(k)+(time*uint64(a.refRep.MediaTimescale)/uint64(rep.MediaTimescale))/uint64(repDur(a.refRep))*uint64(len(a.refRep.Segments)))+uint32(specStartNr(cfg)))
 //@   ensures  fields: err == nil ==> sm.rep == a.refRep && sm.origDur == sm.newDur && int(sm.timescale) == a.refRep.MediaTimescale
 //@   ensures  phase: err == nil ==> exists k in [0, len(a.refRep.Segments)) :: (sm.origTime == a.refRep.Segments[k].StartTime && specPhase(specAvailRefS(a, cfg, k, (time*uint64(a.refRep.MediaTimescale)/uint64(rep.MediaTimescale))/uint64(repDur(a.refRep))), float64(nowMS)*0.001, float64(*cfg.TimeShiftBufferDepthS), cfg.AvailabilityTimeOffsetS) == phaseOK)
-//@   allocates
 //@   loop 1 invariant relNr == 0
 //@   loop 1 decreases int(relNr)
 //@   loop 2 invariant relNr < nrSegs && nrSegs == uint64(len(refRep.Segments)) && refRep == a.refRep && refEndTime == 0 && refTimeAfterWrap < refTotDur && refTotDur == uint64(repDur(a.refRep))
@@ -711,3 +705,133 @@ func lemmaPublishTime(cfg *ResponseConfig, l1, l2 lastSegInfo, nowS float64) {
 	// same publishTime (above availabilityStartTime) means same end of the newest segment
 	assert(implies(p1 == p2 && p1 > float64(cfg.StartTimeS), l1.startTime+l1.dur == l2.startTime+l2.dur))
 }
+
+// ---------------------------------------------------------------------------
+// C08: URL configuration parsing never crashes and yields a validated configuration
+
+//@ extern func strings.Split(s, sep) (r)
+//@   ensures len(r) >= 1 && fresh(r)
+//@   allocates
+//@ extern func strings.Count(s, substr) (n)
+//@   ensures n >= 0
+//@ extern func strings.ReplaceAll(s, old, new) (r)
+//@   ensures len(r) >= 0
+
+//@ func (*strConvAccErr).Atoi
+//@   requires s != nil
+//@   ensures  old(s.err) != nil ==> s.err == old(s.err) && result == 0
+//@   assigns  s.err
+//@   allocates
+
+//@ func (*strConvAccErr).AtoiPtr
+//@   requires s != nil
+//@   ensures  old(s.err) != nil ==> s.err == old(s.err)
+//@   ensures  result == nil ==> s.err != nil
+//@   ensures  result != nil ==> fresh(result) && s.err == old(s.err)
+//@   assigns  s.err
+//@   allocates
+
+//@ func (*strConvAccErr).Atof
+//@   requires s != nil
+//@   ensures  old(s.err) != nil ==> s.err == old(s.err)
+//@   ensures  result == nil ==> s.err != nil
+//@   ensures  result != nil ==> fresh(result) && s.err == old(s.err)
+//@   assigns  s.err
+//@   allocates
+
+//@ func (*strConvAccErr).AtofPosPtr
+//@   requires s != nil
+//@   ensures  old(s.err) != nil ==> s.err == old(s.err)
+//@   ensures  result == nil ==> s.err != nil
+//@   ensures  result != nil ==> fresh(result) && s.err == old(s.err) && *result >= 0.0
+//@   assigns  s.err
+//@   allocates
+
+//@ func (*strConvAccErr).AtofInf
+//@   requires s != nil
+//@   ensures  old(s.err) != nil ==> s.err == old(s.err)
+//@   assigns  s.err
+//@   allocates
+
+//@ func (*strConvAccErr).SplitUTCTimings
+//@   requires s != nil
+//@   ensures  old(s.err) != nil ==> s.err == old(s.err)
+//@   loop 1 invariant 0 <= rangeidx && rangeidx <= len(vals) && len(utcTimingMethods) == len(vals) && fresh(utcTimingMethods) && s != nil && old(s.err) == nil
+//@   assigns  s.err
+//@   allocates
+
+// ParseSegStatusCodes: when no error is recorded every entry has a positive cycle, a
+// non-negative relative sequence number and a 4xx/5xx code.
+//@ func (*strConvAccErr).ParseSegStatusCodes
+//@   requires s != nil
+//@   ensures  s.err == nil ==> forall k in [0, len(result)) :: result[k].Cycle > 0 && result[k].Rsq >= 0 && result[k].Code >= 400 && result[k].Code <= 599
+//@   ensures  old(s.err) != nil ==> s.err != nil
+//@   assigns  s.err
+//@   allocates
+//@   loop 1 invariant 0 <= rangeidx && rangeidx <= len(parts) && len(codes) == len(parts) && fresh(codes) && s != nil
+//@   loop 1 invariant s.err == nil ==> forall k in [0, rangeidx) :: codes[k].Cycle > 0 && codes[k].Rsq >= 0 && codes[k].Code >= 400 && codes[k].Code <= 599
+//@   loop 2 invariant 0 <= rangeidx && rangeidx <= len(pairs) && len(codes) == len(parts) && fresh(codes) && s != nil && 0 <= i && i < len(codes)
+//@   loop 2 invariant s.err == nil ==> forall k in [0, i) :: codes[k].Cycle > 0 && codes[k].Rsq >= 0 && codes[k].Code >= 400 && codes[k].Code <= 599
+
+// CreateAllLossItvls: memory safety; every element is the result of CreateLossItvls (whose
+// contract gives well-formedness per element; carrying it over the append loop is not claimed).
+//@ func CreateAllLossItvls
+//@   returns  (li, err)
+//@   allocates
+//@   loop 1 invariant 0 <= rangeidx && nr >= 1 && (li == nil || fresh(li))
+
+//@ func (*strConvAccErr).ParseLossItvls
+//@   requires s != nil
+//@   ensures  old(s.err) != nil ==> s.err != nil
+//@   assigns  s.err
+//@   allocates
+
+//@ func (*strConvAccErr).ParseQuery
+//@   requires s != nil
+//@   ensures  old(s.err) != nil ==> s.err != nil
+//@   assigns  s.err
+//@   allocates
+//@   noframe
+//@   loop 1 invariant 0 <= rangeidx && rangeidx <= len(pairs) && s != nil && q != nil && q.parts != nil && (old(s.err) != nil ==> s.err != nil)
+
+// cfgValid: what request handling relies on for crash freedom.
+func cfgValid(cfg *ResponseConfig) bool {
+	return cfg != nil && cfg.TimeShiftBufferDepthS != nil && *cfg.TimeShiftBufferDepthS >= 0 && *cfg.TimeShiftBufferDepthS <= MAX_TIME_SHIFT_BUFFER_DEPTH_S &&
+		(cfg.PeriodsPerHour == nil || (*cfg.PeriodsPerHour >= 1 && *cfg.PeriodsPerHour <= 3600)) &&
+		cfg.TimeSubsDurMS >= 1 && cfg.TimeSubsDurMS <= 1000 &&
+		(cfg.SCTE35PerMinute == nil || (*cfg.SCTE35PerMinute >= 1 && *cfg.SCTE35PerMinute <= 3)) &&
+		forall(0, len(cfg.SegStatusCodes), func(k int) bool { return cfg.SegStatusCodes[k].Cycle > 0 && cfg.SegStatusCodes[k].Rsq >= 0 }) &&
+		forall(0, len(cfg.Traffic), func(k int) bool { return wfItvls(cfg.Traffic[k].Itvls) && len(cfg.Traffic[k].Itvls) > 0 })
+}
+
+//@ func NewResponseConfig
+//@   ensures result != nil && fresh(result) && result.TimeShiftBufferDepthS != nil && fresh(result.TimeShiftBufferDepthS) && *result.TimeShiftBufferDepthS == 60 && result.StartNr != nil && result.TimeSubsDurMS == 900 && result.PeriodsPerHour == nil && result.SCTE35PerMinute == nil && len(result.SegStatusCodes) == 0 && len(result.Traffic) == 0 && result.StopTimeS == nil
+//@   allocates
+
+//@ func verifyAndFillConfig
+//@   requires cfg != nil
+//@   ensures  valid: result == nil ==> (cfg.TimeShiftBufferDepthS == nil || (*cfg.TimeShiftBufferDepthS >= 0 && *cfg.TimeShiftBufferDepthS <= MAX_TIME_SHIFT_BUFFER_DEPTH_S)) && (cfg.PeriodsPerHour == nil || (*cfg.PeriodsPerHour >= 1 && *cfg.PeriodsPerHour <= 3600)) && cfg.TimeSubsDurMS >= 1 && cfg.TimeSubsDurMS <= 1000 && (cfg.SCTE35PerMinute == nil || (*cfg.SCTE35PerMinute >= 1 && *cfg.SCTE35PerMinute <= 3))
+//@   ensures  kept: cfg.TimeShiftBufferDepthS == old(cfg.TimeShiftBufferDepthS) && cfg.PeriodsPerHour == old(cfg.PeriodsPerHour) && cfg.TimeSubsDurMS == old(cfg.TimeSubsDurMS) && cfg.SCTE35PerMinute == old(cfg.SCTE35PerMinute) && cfg.SegStatusCodes == old(cfg.SegStatusCodes) && cfg.Traffic == old(cfg.Traffic)
+//@   assigns  cfg.LatencyTargetMS
+//@   allocates
+
+// cfgValidScalars: the scalar part of cfgValid.
+func cfgValidScalars(cfg *ResponseConfig) bool {
+	return cfg != nil && cfg.TimeShiftBufferDepthS != nil && *cfg.TimeShiftBufferDepthS >= 0 && *cfg.TimeShiftBufferDepthS <= MAX_TIME_SHIFT_BUFFER_DEPTH_S &&
+		(cfg.PeriodsPerHour == nil || (*cfg.PeriodsPerHour >= 1 && *cfg.PeriodsPerHour <= 3600)) &&
+		cfg.TimeSubsDurMS >= 1 && cfg.TimeSubsDurMS <= 1000 &&
+		(cfg.SCTE35PerMinute == nil || (*cfg.SCTE35PerMinute >= 1 && *cfg.SCTE35PerMinute <= 3))
+}
+
+// processURLCfg: never crashes, and an accepted URL yields a configuration whose scalar
+// parameters are in the ranges request handling relies on. (That cfg.Traffic and
+// cfg.SegStatusCodes stay well-formed from their parse functions to the end of the loop is
+// not carried through the loop invariant: see the contracts of ParseLossItvls and
+// ParseSegStatusCodes.)
+//@ func processURLCfg
+//@   returns  (cfg, err)
+//@   ensures  err == nil ==> cfgValidScalars(cfg)
+//@   allocates
+//@   noframe
+//@   loop 1 invariant 0 <= rangeidx && rangeidx <= len(urlParts) && cfg != nil && fresh(cfg) && sc != nil
+//@   loop 1 invariant sc.err == nil ==> cfg.TimeShiftBufferDepthS != nil
